@@ -29,14 +29,19 @@ func BreakerHandler(method, path string, metrics *stat.Metrics) func(http.Handle
 			}
 
 			cw := response.NewWithCodeResponseWriter(w)
+			var returned bool
 			defer func() {
-				if cw.Code < http.StatusInternalServerError {
+				if !returned {
+					// the handler panicked, a panic counts as a failure whatever was written so far
+					promise.Reject("panic")
+				} else if cw.Code < http.StatusInternalServerError {
 					promise.Accept()
 				} else {
 					promise.Reject(fmt.Sprintf("%d %s", cw.Code, http.StatusText(cw.Code)))
 				}
 			}()
 			next.ServeHTTP(cw, r)
+			returned = true
 		})
 	}
 }
